@@ -22,6 +22,10 @@ PRELUDE = [
     ("assign", "in0", ("in", 0)), ("assign", "in1", ("in", 1)), ("assign", "in2", ("in", 2)),
     ("assign", "il", ("list", [V("in0"), V("in1"), V("in2")]), "[int...]"),
     ("assign", "bl", ("list", [B("==", V("in0"), I(1)), B("==", V("in1"), I(2)), B("<", V("in2"), I(0))]), "[bool...]"),
+    ("class", "Lg", [("z", "int")], [], [("setfield", V("self"), "z", I(0))],
+     [("lg", [("tag", "int"), ("v", "int")], "int", [("print", V("tag")), ("setfield", V("self"), "z", B("+", ("field", V("self"), "z"), I(1))), ("return", V("v"))]),
+      ("lb", [("tag", "int"), ("v", "int")], "bool", [("print", V("tag")), ("setfield", V("self"), "z", B("+", ("field", V("self"), "z"), I(1))), ("return", B("==", V("v"), I(1)))])]),
+    ("assign", "ob", ("call", "Lg", [])),
     ("def", "lg", [("tag", "int"), ("v", "int")], "int", [("print", V("tag")), ("return", V("v"))]),
     ("def", "lo", [("tag", "int"), ("sel", "int"), ("v", "int")], "int?", [
         ("print", V("tag")), ("if", [(B("==", V("sel"), I(1)), [("return", ("nil",))])], None), ("return", V("v"))]),
@@ -52,6 +56,10 @@ class Builder:
             return ("index", V("il"), t % 3)          # a list element used directly as operand (array view), no logging
         if kind == "X":
             return ("index", V("bl"), t % 3)
+        if kind == "M":
+            return ("mcall", V("ob"), "lg", [I(t), inp])        # a method call as operand (receiver, then arguments)
+        if kind == "Y":
+            return ("mcall", V("ob"), "lb", [I(t), inp])
         if kind == "i":
             return ("call", "lg", [I(t), inp])
         if kind == "o":
@@ -91,7 +99,7 @@ class Builder:
 
 def shapes(kind, depth, nodes_i=INT_NODES, nodes_b=BOOL_NODES):
     """all shapes of value kind `kind` ('i', 'b', 'o') with nesting depth <= depth"""
-    leaves = {"i": ["i", "I"], "b": ["b", "X"], "o": ["o"]}[kind]
+    leaves = {"i": ["i", "I", "M"], "b": ["b", "X", "Y"], "o": ["o"]}[kind]
     if depth == 0 or kind == "o":
         return list(leaves)
     out = list(leaves)
@@ -135,6 +143,7 @@ def program(shape, kind, ctx):
         else:
             prog.append(("assign", "xs", ("list", [b.leaf("i"), e, b.leaf("i")]), "[int...]"))
             prog.append(("print", V("xs")))
+    prog.append(("print", ("field", V("ob"), "z")))      # how many method calls really ran
     prog.append(("print", ("str", "end")))
     return prog
 
@@ -167,7 +176,7 @@ def select(depth_full, depth_sample, nsample, seed):
 
 def random_shape(rnd, kind, depth):
     if depth == 0 or kind == "o" or rnd.random() < 0.15:
-        return rnd.choice({"i": "iiI", "b": "bbX", "o": "o"}[kind])
+        return rnd.choice({"i": "iiIM", "b": "bbXY", "o": "o"}[kind])
     k = rnd.choice(INT_NODES if kind == "i" else BOOL_NODES)
     return (k,) + tuple(random_shape(rnd, c, depth - 1) for c in ARITY[k])
 
